@@ -6,6 +6,7 @@ function model of `succinctly::json::validate::validate` (Model/JsonValidate.lea
 from `src/json/validate.rs` on every run.
 -/
 import SuccinctlyVerif.Proof.JsonF5
+import SuccinctlyVerif.Proof.JsonErr
 import SuccinctlyVerif.Proof.JsonLineCol
 import SuccinctlyVerif.Generated.C08
 namespace SV.Props.C08
@@ -48,6 +49,23 @@ theorem error_linecol (b : Bytes) (e : Err) (h : validate MAX b = .err e) :
 
 example : (validate MAX [0x5B, 0x0D, 0x0A, 0x31, 0x2C, 0x0A, 0x5D]).err?
     = some ⟨.unexpectedCharacter .value 0x5D, 6, 3, 1⟩ := by decide +kernel   -- "[\r\n1,\n]"
+
+/-- **Error offset (partial).** Whenever the validator fails with an error kind other than
+`UnpairedSurrogate` / `InvalidUnicodeEscape`, the bytes before the reported offset can be extended
+to a valid text, i.e. the offset is not beyond the longest viable prefix.
+Missing for the full `error_offset_viable`: the two excluded kinds. For them the statement is
+*false* as the code stands (finding F5, `error_offset_viable_fails` below: inside a `\u` escape
+whose digits already commit it to an unpaired surrogate the error is raised 1–4 bytes late); what
+is not proved is the positive half for those kinds (that the overshoot happens only in that
+situation and never exceeds 4 bytes) – it is checked on every run by the correspondence oracle. -/
+theorem error_offset_viable_partial (b : Bytes) (e : Err) (h : validate MAX b = .err e)
+    (hk : ¬ SurrKind e.kind) : Viable MAX (b.take e.offset) :=
+  validate_err_viable MAX b e h hk
+
+example : (validate MAX [0x5B, 0x31, 0x2C, 0x5D]).err?   -- "[1,]": trailing comma, offset 3
+    = some ⟨.unexpectedCharacter .value 0x5D, 3, 1, 4⟩ := by decide +kernel
+example : ¬ SurrKind (Kind.unexpectedCharacter .value 0x5D) := by
+  rintro (⟨_, h⟩ | ⟨_, h⟩) <;> cases h
 
 /-- **F5 (finding).** `error_offset_viable` does *not* hold for the validator as written: on
 `"\uD800A"` the model (and, by the correspondence, the implementation) reports
